@@ -7,7 +7,9 @@
 (*      + fibres whose loss coefficient is a per-frequency table, one of them longer than the maximum)            *)
 (* len in {0.05, 20, 80, 95, 151, 400, 1200} km; Span settings padding 0/10 dB x EOL 0/1 dB x max_length         *)
 (* 80/150 km (thorough: 80/100/150; 80 km is below the 90 km target span, 95 km then lies between the maximum    *)
-(* and the length at which two spans reach the 50 km minimum) x power/gain mode.                                 *)
+(* and the length at which two spans reach the 50 km minimum) x power/gain mode; the SI band lies strictly       *)
+(* inside the amplifier band or has the same edges (tied to EOL xor mode so that every chain meets both).        *)
+(* Further chain kinds: two splices in a row, fibres describing one / both connectors themselves.               *)
 (* The reverse direction of a link carries the mirrored chain (a plain 80 km fibre opposite a Raman chain).      *)
 (* Tier selects how many chain combinations are used on the 3- and 4-ROADM shapes.                              *)
 EXTENDS DesignStructure, Json
@@ -20,12 +22,13 @@ km == 1000
 Blank(name, type) == [name |-> name, type |-> type, succ |-> {}, pred |-> {}, len |-> 0, coef |-> 0, variety |-> "",
                       conIn |-> NONE, conOut |-> NONE, attIn |-> NONE, loss |-> 0, sub |-> <<>>, origin |-> "", coefTab |-> <<>>]
 \* chain element descriptors
-F(l) == [t |-> "Fiber", len |-> l, k |-> "", att |-> 0]
-FQ(l) == [t |-> "Fiber", len |-> l, k |-> "perfreq", att |-> 0]     \* fibre whose loss coefficient is given per frequency
-FP(l, a) == [t |-> "Fiber", len |-> l, k |-> "", att |-> a]         \* fibre with a user-set padding attenuator att_in
-R(l) == [t |-> "RamanFiber", len |-> l, k |-> "", att |-> 0]
-X    == [t |-> "Fused", len |-> 0, k |-> "", att |-> 0]
-A(k) == [t |-> "Edfa", len |-> 0, k |-> k, att |-> 0]
+F(l) == [t |-> "Fiber", len |-> l, k |-> "", att |-> 0, ci |-> NONE, co |-> NONE]
+FQ(l) == [F(l) EXCEPT !.k = "perfreq"]                 \* fibre whose loss coefficient is given per frequency
+FP(l, a) == [F(l) EXCEPT !.att = a]                     \* fibre with a user-set padding attenuator att_in
+FC(l, i, o) == [F(l) EXCEPT !.ci = i, !.co = o]         \* fibre that describes its connectors itself (NONE = left to the Span default)
+R(l) == [t |-> "RamanFiber", len |-> l, k |-> "", att |-> 0, ci |-> dB \div 2, co |-> dB \div 2]
+X    == [t |-> "Fused", len |-> 0, k |-> "", att |-> 0, ci |-> NONE, co |-> NONE]
+A(k) == [t |-> "Edfa", len |-> 0, k |-> k, att |-> 0, ci |-> NONE, co |-> NONE]
 
 LossTable == <<<<191000000, 210>>, <<193500000, 200>>, <<196500000, 190>>>>       \* <<MHz, mdB/km>>
 UserSub(k) == IF k = "full" THEN [variety |-> "std_medium_gain", gain |-> 18 * dB, voa |-> dB, dp |-> dB]
@@ -33,7 +36,7 @@ UserSub(k) == IF k = "full" THEN [variety |-> "std_medium_gain", gain |-> 18 * d
               ELSE NoSub
 Concrete(d, name) ==
     IF d.t = "Fiber" THEN [Blank(name, "Fiber") EXCEPT !.len = d.len, !.coef = 200, !.variety = "SSMF", !.attIn = d.att,
-                               !.coefTab = IF d.k = "perfreq" THEN LossTable ELSE <<>>]
+                               !.conIn = d.ci, !.conOut = d.co, !.coefTab = IF d.k = "perfreq" THEN LossTable ELSE <<>>]
     ELSE IF d.t = "RamanFiber" THEN [Blank(name, "RamanFiber") EXCEPT !.len = d.len, !.coef = 200, !.variety = "SSMF",
                                         !.attIn = 0, !.conIn = dB \div 2, !.conOut = dB \div 2]
     ELSE IF d.t = "Fused" THEN [Blank(name, "Fused") EXCEPT !.loss = dB]
@@ -48,8 +51,12 @@ Raman  == {<<R(80 * km)>>, <<F(80 * km), A("full"), R(80 * km)>>, <<R(80 * km), 
 \* user-set padding attenuators: alone, and on the first / (mirrored) last fibre of a spliced span shorter than the padding
 Padded == {<<FP(20 * km, 3 * dB)>>, <<FP(20 * km, 3 * dB), X, F(50)>>, <<FP(50, 3 * dB), X, F(20 * km)>>,
            <<FP(50, 2 * dB), X, FP(50, dB)>>}
+\* two splices in a row inside a span shorter than the padding
+DoubleSplice == {<<F(50), X, X, F(50)>>, <<F(20 * km), X, X, F(50)>>}
+\* one connector described by the topology, the other left to the Span default; both described
+OneConnector == {<<FC(80 * km, dB \div 2, NONE)>>, <<FC(20 * km, NONE, dB \div 4)>>, <<FC(50, dB \div 2, NONE), X, FC(20 * km, dB, dB)>>}
 PerFreq == {<<FQ(151 * km)>>, <<FQ(20 * km), X, F(80 * km)>>}
-Chains == Plain \cup Spliced \cup WithAmp \cup Padded \cup PerFreq
+Chains == Plain \cup Spliced \cup WithAmp \cup Padded \cup PerFreq \cup DoubleSplice \cup OneConnector
 \* representatives used where the full product would be too large
 Reps   == {<<F(50)>>, <<F(80 * km)>>, <<F(400 * km)>>, <<F(20 * km), X, F(50)>>, <<F(151 * km), X, F(80 * km)>>,
            <<F(20 * km), A("none"), F(80 * km)>>, <<F(151 * km), A("full"), F(20 * km)>>, <<F(80 * km), A("partial"), F(50)>>}
@@ -82,8 +89,13 @@ Line3(c, d)    == AddLink(AddLink(Sites(3), 1, 2, c), 2, 3, d)
 Tri(c, d, e)   == AddLink(AddLink(AddLink(Sites(3), 1, 2, c), 2, 3, d), 1, 3, e)
 Star(c, d, e)  == AddLink(AddLink(AddLink(Sites(4), 2, 1, c), 2, 3, d), 2, 4, e)      \* hub B of degree 3, leaves of degree 1
 
+\* SI / design band in MHz: strictly inside the band of the library amplifiers, or with the same edges
+AmpBand   == <<191275000, 196125000>>
+InnerBand == <<191300000, 195100000>>
 Setting(pad, eol, maxl, pm) == [padding |-> pad * dB, eol |-> eol * dB, maxLen |-> maxl * km, powerMode |-> pm,
                                 conIn |-> 300000, conOut |-> 400000,
+                                siBand |-> IF (eol + (IF pm THEN 1 ELSE 0)) % 2 = 1 THEN AmpBand ELSE InnerBand,
+                                ampBand |-> AmpBand,
                                 lib |-> {"std_low_gain", "std_medium_gain", "std_high_gain"}]
 MaxLens == IF Tier = "quick" THEN {80, 150} ELSE {80, 100, 150}
 AllSettings == {Setting(p, e, m, pm) : p \in {0, 10}, e \in {0, 1}, m \in MaxLens, pm \in BOOLEAN}
